@@ -61,11 +61,14 @@ impl Error {
 
 // ---- rand ----
 // Results are unconstrained: every contract must hold for every outcome of the generator.
+pub uninterp spec fn f64_is_probability(p: f64) -> bool;
 pub trait RngCore {
     fn next_u64(&mut self) -> u64;
     fn next_u32(&mut self) -> u32;
-    // rand::Rng::random_bool (extension trait on RngCore): p must be a probability.
-    fn random_bool(&mut self, p: f64) -> bool;
+    // rand::Rng::random_bool (extension trait on RngCore): panics unless 0.0 <= p <= 1.0 (found missing by stubcheck).
+    // Verus has no spec for f64 comparison, so the range is the uninterpreted predicate f64_is_probability.
+    fn random_bool(&mut self, p: f64) -> bool
+        requires f64_is_probability(p);
     // rand::Rng::random_range over usize ranges (half-open)
     fn random_range_usize(&mut self, lo: usize, hi: usize) -> (r: usize)
         requires lo < hi
